@@ -69,14 +69,22 @@ pub fn builder_from(tokens: &[&str]) -> Result<rpm::PackageBuilder, rpm::Error> 
     }
     let dir = scratch_dir();
     let mut fi = 0;
+    let mut last_src: Option<std::path::PathBuf> = None;
     for t in tokens {
         if let Some(r) = t.strip_prefix("f=") {
             let p: Vec<&str> = r.split(':').collect();
             let (dest, mode, user, group, flags, caps, link, mtime, seed, size, vf) =
                 (hs(p[0]), p[1], hs(p[2]), hs(p[3]), p[4].parse::<u32>().unwrap(), p[5], hs(p[6]), p[7].parse::<i64>().unwrap(), p[8].parse::<u64>().unwrap(), p[9].parse::<usize>().unwrap(), p[10]);
-            let src = dir.join(format!("src{}", fi));
+            // every fourth file re-uses the previous file's source path, rewritten with its own content (and given
+            // its own mtime) between the two `with_file` calls: the builder must take what the path holds NOW
+            let src = match &last_src {
+                Some(prev) if seed % 4 == 2 => prev.clone(),
+                _ => dir.join(format!("src{}", fi)),
+            };
             fi += 1;
+            let _ = std::fs::set_permissions(&src, std::fs::Permissions::from_mode(0o644));
             std::fs::write(&src, content(seed, size))?;
+            last_src = Some(src.clone());
             let mut o = rpm::FileOptions::new(dest).user(user).group(group).symlink(link);
             if let Some(m) = mode.strip_prefix('i') {
                 std::fs::set_permissions(&src, std::fs::Permissions::from_mode(m.parse::<u32>().unwrap() & 0o7777))?;
